@@ -36,7 +36,7 @@ def buffers(seed, n, prefix='r'):
                 mt, pt = wire.KIND_TYPE[kind]
                 p = {'mt': mt, 'pt': rng.choice([pt, pt, 0, 0xFF]), 'ts': wire.rbytes(rng, 8), 'ifid': wire.rbytes(rng, 4), 'vid': 1,
                      'fl': rng.choice([0, 0, 0x40, 0x0C, 0xFF])}
-                declared = max(0, min(65535, len(b) + rng.choice([0, 0, 0, -1, 1, 5, 60000])))
+                declared = rng.choice([max(0, min(65535, len(b) + rng.choice([0, 0, 0, -1, 1, 5, 60000]))), 0xFFFF, 0xFFF0, 0xFFEF, 0xFFF8])
                 msg = wire.msg_header(p, 0, declared) + b
                 if rng.random() < 0.2:
                     msg = msg[:rng.randrange(0, 17)]
